@@ -11,7 +11,17 @@ for d in sorted(glob.glob(os.path.join(ROOT, "seeded", "*"))):
     patch = open(os.path.join(d, "patch.diff")).read()
     files = sorted(set(re.findall(r"^\+\+\+ b/(\S+)", patch, re.M)))
     what = m.get("summary") or ""
+    if not what:
+        np = os.path.join(d, "notes.md")
+        if os.path.exists(np):
+            for ln in open(np):
+                if ln.startswith("#"):
+                    what = re.sub(r"^#+\s*(?:[Cc]\d\d[^:—-]*?(?:change|round)[^:—-]*[:—-]+\s*)?", "", ln).strip()
+                    what = re.sub(r"^(?:change \d+\s*[:—-]+\s*)", "", what)
+                    break
     det = ", ".join(m.get("detected_by") or []) or "**none**"
+    if m.get("obsolete"):
+        det = "no longer a breaking change: " + m["obsolete"]
     sigs = []
     for pid in m.get("detected_by") or []:
         sigs += m["checks"][pid]["signatures"][:1]
